@@ -131,7 +131,8 @@ def r2_fold(ctx):
   # the update is applied as f(old, new)
   u = ctx.repo.func(f'{CAL}._update_qsvs')
   calls = [c for c in common.calls_in(u.node) if isinstance(c.func, ast.Name) and c.func.id == 'qsv_update_func']
-  ok = len(calls) == 1 and len(calls[0].args) == 2 and '_model_qsvs' in ast.unparse(calls[0].args[0]) and '_model_qsvs' not in ast.unparse(calls[0].args[1])
+  inl0 = defuse.Inliner(ctx.repo, max_depth=0)
+  ok = len(calls) == 1 and len(calls[0].args) == 2 and '_model_qsvs' in defuse.norm(inl0.inline(u, calls[0].args[0])) and '_model_qsvs' not in defuse.norm(inl0.inline(u, calls[0].args[1]))
   ctx.check(R, ok, u.node, u, calls[0] if calls else 'qsv_update_func(...)', 'the fold must be called as update(old statistic, new statistic)')
 
 
@@ -175,7 +176,9 @@ def r3_once_per_sample(ctx):
   if len(loops) == 1:
     b = gu.loop_body_nodes(loops[0].id)
     skip = [n for n in b if gu.nodes[n].kind == 'if' and ' in ' in ast.unparse(gu.nodes[n].ast.test) and u.pos_params[2] in ast.unparse(gu.nodes[n].ast.test)]
-    stores = [n for n in b if any(isinstance(x, ast.Subscript) and isinstance(x.ctx, ast.Store) and '_model_qsvs' in ast.unparse(x) for x in gu.nodes[n].walk())]
+    derived = {name for name, vals in defuse.own_assignments(u.node).items() if any(v is not None and '_model_qsvs' in ast.unparse(v) for v in vals)}
+    stores = [n for n in b if any(isinstance(x, ast.Subscript) and isinstance(x.ctx, ast.Store) and '_model_qsvs' in ast.unparse(x) for x in gu.nodes[n].walk())
+              or any(isinstance(c.func, ast.Attribute) and c.func.attr in ('update',) and isinstance(c.func.value, ast.Name) and c.func.value.id in derived for c in gu.nodes[n].calls())]
     ok3 = len(skip) == 1 and all(gu.every_path_passes(loops[0].id, s, {skip[0]}) for s in stores) and bool(stores)
     ctx.check(R, ok3, u.node, u, 'ignored names are skipped before any store', 'ignored tensor names must be skipped before the statistics are touched')
     adds = [n for n in b if any(isinstance(c.func, ast.Attribute) and c.func.attr == 'add' for c in gu.nodes[n].calls())]
@@ -185,7 +188,8 @@ def r3_once_per_sample(ctx):
       ok4 = any(a in gu.reachable([s], blocked={loops[0].id}) for a in adds)
       ctx.check(R, ok4, gu.nodes[s].ast, u, gu.nodes[s].ast, 'a stored tensor is not reported as updated (it would be folded again by the next op of the same sample)')
     # first sample initialises: absent name -> stored unchanged
-    ini = [gu.nodes[s].ast for s in stores if isinstance(gu.nodes[s].ast, ast.Assign) and isinstance(gu.nodes[s].ast.value, ast.Name)]
+    ini = [gu.nodes[s].ast for s in stores if (isinstance(gu.nodes[s].ast, ast.Assign) and isinstance(gu.nodes[s].ast.value, ast.Name))
+           or (isinstance(gu.nodes[s].ast, ast.Expr) and isinstance(gu.nodes[s].ast.value, ast.Call) and getattr(gu.nodes[s].ast.value.func, 'attr', '') == 'update')]
     ctx.check(R, len(ini) >= 1, u.node, u, 'first sample', 'a tensor seen for the first time must be stored unchanged')
   else:
     ctx.check(R, False, u.node, u, '_update_qsvs shape', '_update_qsvs is expected to be a single loop over the op statistics')
